@@ -14,6 +14,8 @@ pub enum Mode {
     Records,
     IntoRecords,
     Sets,
+    /// like Sets, but every batch is requested with read_record_set_exact(n)
+    Exact(u8),
 }
 
 pub struct Reading {
@@ -29,6 +31,7 @@ pub struct Reading {
 
 fn read_generic<R: Rdr<Src = Source>>(input: &[u8], cap: usize, pol: PolKind, script: &Script, mode: Mode, max: usize) -> Reading {
     let shared = Rc::new(Shared::default());
+    shared.input_len.set(input.len().max(1));
     let budget = crate::interp::budget(input.len(), cap, max + 4);
     let (src, src_log) = Source::new(Rc::new(input.to_vec()), script.clone(), budget);
     let (pol, pol_log) = RecPolicy::new(pol, shared.clone());
@@ -60,11 +63,15 @@ fn read_generic<R: Rdr<Src = Source>>(input: &[u8], cap: usize, pol: PolKind, sc
             outs = r.drain_into_records(max, extra);
             pos = vec![None; outs.len()];
         }
-        Mode::Sets => {
+        Mode::Sets | Mode::Exact(_) => {
+            let exact = match mode {
+                Mode::Exact(n) => Some(crate::interp::exact_count(n)),
+                _ => None,
+            };
             let mut set = R::Set::default();
             let mut after_end = 0;
             while outs.len() < max {
-                match r.read_set(&mut set, None) {
+                match r.read_set(&mut set, exact) {
                     SetOut::Ok => {
                         let recs = R::set_recs(&set);
                         batches.push(recs.len());
@@ -105,6 +112,8 @@ fn read_generic<R: Rdr<Src = Source>>(input: &[u8], cap: usize, pol: PolKind, sc
         }
     }
     src_log.borrow_mut().bad_policy = shared.bad_answer.get();
+    src_log.borrow_mut().runaway = shared.runaway.get();
+    src_log.borrow_mut().stalled = shared.stalled.get();
     Reading { outs, pos, src: src_log, pol: pol_log, batches }
 }
 
